@@ -133,7 +133,10 @@ impl<D: Doc> Root<D> {
     range.sort_by(|a, b| a.0.cmp(&b.0));
     let roots = range
       .into_iter()
-      .filter_map(|(lang, ranges)| {
+      .filter_map(|(lang, mut ranges)| {
+        // tree-sitter rejects regions that are not in document order (several injection
+        // rules can contribute to one language): the document would silently be dropped
+        ranges.sort_by_key(|r| r.start_byte());
         let lang = get_lang(&lang)?;
         let source = self.doc.get_source();
         let mut parser = tree_sitter::Parser::new().ok()?;
